@@ -105,6 +105,13 @@ def run(an: Analysis, rep):
     sh = SharedRules(rep, "R06.R", "encoder re-layout and table keys (shared with C03's R03.3/R03.7): normalize -> to_code -> from_code -> normalize is a fixed point only if they hold")
     rep.run(c03.r037, an, sh)
     rep.run(c03.r033, an, sh, c03.table_class(an))
+    from . import c07
+    from .json_model import find_json_functions, load_schema
+    shj = SharedRules(rep, "R06.J", "JSON codec agreement (shared with C07's R07.1/R07.3): the normal form is stable through to_json_data / from_json_data")
+    root, defs = load_schema(an)
+    enc, cdec = find_json_functions(an)
+    rep.run(c07.r071, an, shj, enc, cdec, defs)
+    rep.run(c07.r073, an, shj, enc)
 
 
 def _shape_kinds(tg, t):
